@@ -1,6 +1,7 @@
 package main
 
 import (
+	"fmt"
 	"math"
 	"math/rand"
 	"strconv"
@@ -107,6 +108,12 @@ func linearGen(r *rand.Rand, n int, tier string, emit func(Case)) {
 			td := []int{1, 2, 4, 16}[r.Intn(4)]
 			emit(Case{"kind": "simplify", "line": latticeLine(r, 2+r.Intn(7), side), "tn": r.Intn(side*td + 1), "td": td, "ring": r.Intn(4) == 0, "ct": r.Intn(4)})
 		case 4:
+			if r.Intn(3) == 0 {
+				l := &lgen{r: r, N: 3 + r.Intn(6)}
+				dd := []int{1, 2, 4}[r.Intn(3)]
+				emit(Case{"kind": "densifyany", "w": l.any(4).AsText(), "dn": 1 + r.Intn(3*l.N*dd), "dd": dd, "ct": r.Intn(4)})
+				continue
+			}
 			side := 2 + r.Intn(7)
 			dd := []int{1, 2, 4, 8}[r.Intn(4)]
 			emit(Case{"kind": "densify", "line": latticeLine(r, 2+r.Intn(4), side), "dn": 1 + r.Intn(10*side*dd), "dd": dd, "ct": r.Intn(4)})
@@ -265,6 +272,44 @@ func linearExec(c Case) Event {
 		}
 		ev["valid"] = res.Validate() == nil && res.CoordinatesType() == ct && res.IsPolygon()
 		ev["keptrings"] = polyInts(res.MustAsPolygon())
+	case "densifyany":
+		// Densify on any geometry: every lineal element (LineString members and polygon rings, in Dump order) must
+		// satisfy the same contract as a single line; points and the structure are untouched
+		g0 := mustWKT(c.str("w")).ForceCoordinatesType(ct)
+		ev["dn"], ev["dd"] = c.num("dn"), c.num("dd")
+		res := g0.Densify(float64(c.num("dn")) / float64(c.num("dd")))
+		elems := func(g geom.Geometry, k float64) ([][][]int, []string) {
+			out := [][][]int{}
+			shape := []string{}
+			add := func(seq geom.Sequence) {
+				e := [][]int{}
+				for i := 0; i < seq.Length(); i++ {
+					xy := seq.GetXY(i)
+					e = append(e, []int{scaled(xy.X, k), scaled(xy.Y, k)})
+				}
+				out = append(out, e)
+			}
+			for _, d := range g.Dump() {
+				shape = append(shape, d.Type().String())
+				switch d.Type() {
+				case geom.TypePoint:
+					if xy, ok := d.MustAsPoint().XY(); ok {
+						out = append(out, [][]int{{scaled(xy.X, k), scaled(xy.Y, k)}})
+					}
+				case geom.TypeLineString:
+					add(d.MustAsLineString().Coordinates())
+				case geom.TypePolygon:
+					for _, r := range d.MustAsPolygon().DumpRings() {
+						add(r.Coordinates())
+					}
+				}
+			}
+			return out, shape
+		}
+		a, sa := elems(g0, 1)
+		b, sb := elems(res, 256)
+		ev["rings"], ev["keptrings"] = a, b
+		ev["ctsame"] = res.CoordinatesType() == ct && res.Type() == g0.Type() && fmt.Sprint(sa) == fmt.Sprint(sb)
 	case "densify":
 		pts := intsOf(c["line"])
 		ls, _ := lineOf(pts, ct)
